@@ -181,8 +181,8 @@ def r22(ctx, prog):
     ctx.rule('C19.R22', 'A10 Base64 (caller-buffer forms) and scalable integers by abstract replay on concrete values: Encode into a buffer of exactly the advertised size equals RFC 4648 '
              'written independently (and Python\'s base64), into a buffer one short it refuses and writes nothing; DecodeLength of the text is the length of the data and Decode '
              'gives the data back, into a buffer one short it refuses and writes nothing; truncated text, text with a character outside the alphabet at every position, with a '
-             'byte >= 0x80, with padding in the middle end in a clean refusal or a short count, never in a fault; DumpScalableInteger / ParseScalableInteger round-trip the '
-             'boundary values of every size class (and their neighbours, 2^63, 2^64-1) with the advertised byte count, sizes never decrease with the value, distinct values '
+             'byte >= 0x80, with padding in the middle end in a clean refusal or a short count, never in a fault; the overload that decodes into a std::vector appends (what the vector held stays in front); DumpScalableInteger / ParseScalableInteger round-trip the '
+             'boundary values of every size class (their neighbours, interior values whose 7-bit groups all differ, 2^63, 2^64-1) with the advertised byte count, sizes never decrease with the value, distinct values '
              'give distinct encodings, a buffer one short is refused untouched, a truncated encoding is refused, trailing bytes are not consumed; %d data lengths' % len(lens), floor=2)
     need = [B + 'Encode', B + 'Decode', B + 'DecodeLength', 'tbox::util::DumpScalableInteger', 'tbox::util::ParseScalableInteger']
     if not all(any(g.name == n_ for g in prog.funcs.values()) for n_ in need):
@@ -277,6 +277,48 @@ def r22(ctx, prog):
                         note('%s: Decode of the text %s answers %s for a capacity of %d' % (tag, what, r, ln))
                     elif alien is not None and r != 0 and ord('=') not in tv[:tv.index(alien)]:
                         note('%s: Decode accepts the text %s (answers %s)' % (tag, what, r))
+    # the overload that appends to a std::vector: the vector keeps what it held (a second text decoded into the same vector comes after the first)
+    vdec = [g for g in prog.funcs.values() if g.name == B + 'Decode' and g.body is not None and len(g.params) == 2 and 'vector' in (g.params[1].get('ct') or '')]
+    if len(vdec) != 1:
+        raise AnalysisBroken('base64::Decode(const std::string&, std::vector<uint8_t>&): %d candidate(s)' % len(vdec))
+    hooks2 = dict(minterp.VECTOR_HOOKS)
+    def h_resize(it_, f, st, a):
+        v = it_.cur_obj
+        if not isinstance(v, list) or not isinstance(a[0], int):
+            raise AnalysisBroken('resize() of something the replay does not hold as a vector (%s)' % f.loc(st['i']))
+        if a[0] < len(v):
+            del v[a[0]:]
+        else:
+            v.extend([a[1] if len(a) > 1 else 0] * (a[0] - len(v)))
+        return None
+
+    def h_data(it_, f, st, a):
+        v = it_.cur_obj
+        if not isinstance(v, list):
+            raise AnalysisBroken('data() of something the replay does not hold as a vector (%s)' % f.loc(st['i']))
+        serial[0] += 1
+        it_.mem['vec#%d' % serial[0]] = v           # the storage of the vector itself: stores through the pointer are stores into the vector
+        return P('vec#%d' % serial[0], 0)
+    hooks2.update({'memcpy': minterp.h_memcpy, 'memset': minterp.h_memset, 'resize': h_resize, 'data': h_data})
+    it2 = minterp.Interp(prog, dict(mem), hooks=hooks2, inline=('*',), max_steps=20000000)
+    it2.string_mode = True
+    it2.globals['std::basic_string<char>::npos'] = minterp.NPOS
+    for ln in (1, 2, 3, 4, 7):
+        for held in ([], [9, 8, 7], list(range(200, 216))):
+            data = message(ln, 4)
+            vec = list(held)
+            it2.faults = []
+            cell = {'__cls__': None, '__open__': True, 'v': vec}
+            it2._keep.append(cell)
+            try:
+                r = it2.call(vdec[0], [minterp.S(b64_ref(data)), vec])
+            except AnalysisBroken as ex:
+                raise AnalysisBroken('base64::Decode into a vector: %s' % ex)
+            n_ += 1
+            if it2.faults:
+                note('Decode("%s") into a vector holding %d byte(s): %s' % (b64_ref(data), len(held), it2.faults[0]))
+            elif r != ln or vec != held + data:
+                note('Decode("%s") into a vector holding %s answers %s and leaves %s where %s is expected (what the vector held, then the data)' % (b64_ref(data), held[:4], r, vec[:8], (held + data)[:8]))
     f = enc
     ctx.ob('C19.R22', 'base64|round-trip', bad is None, '%d codec calls' % n_ if bad is None else bad, where=f.loc(f.body))
 
@@ -288,6 +330,10 @@ def r22(ctx, prog):
     for n in range(1, 10):
         hi = lo + (1 << (7 * n)) - 1        # the size classes by the stated construction: each further byte adds 7 bits and starts where the previous class ended
         for v in (lo - 1, lo, lo + 1, hi - 1, hi, hi + 1, (lo + hi) // 2):
+            if 0 <= v < (1 << 64):
+                vals.add(v)
+        for pat in (0x2AAAAAAAAAAAAAAA, 0x0123456789ABCDEF, 0x1F2E3D4C5B6A7988, 0x5555555555555555, 0x00FF00FF00FF00FF, 0x1111111111111111 * 7):
+            v = lo + (pat & ((1 << (7 * n)) - 1))           # interior values of the class: every 7-bit group of the payload different from its neighbours
             if 0 <= v < (1 << 64):
                 vals.add(v)
         lo = hi + 1
